@@ -2199,7 +2199,8 @@ func parseOptions(index *int, opts *Options, allArgs []string) error {
 			return errors.New("history max must be a positive integer")
 		}
 		if opts.History != nil {
-			opts.History.maxSize = historyMax
+			// Load the file again with the new limit
+			return setHistory(opts.History.path)
 		}
 		return nil
 	}
